@@ -327,6 +327,7 @@ func latticeCases() []lcase {
 			}
 		}
 	}
+	operandOrderCases(add)
 	_ = small
 	return l
 }
